@@ -13,7 +13,11 @@ Proof.
   - intros Hin. exists v. split; [exact Hin | apply N.eqb_refl].
 Qed.
 Lemma memN_false v l : memN v l = false <-> ~ In v l.
-Proof. rewrite <- memN_In. destruct (memN v l); split; intros; try congruence. exfalso; auto. Qed.
+Proof.
+  split; intros H.
+  - intros Hin. apply memN_In in Hin. congruence.
+  - destruct (memN v l) eqn:E; [exfalso; apply H; apply memN_In; exact E | reflexivity].
+Qed.
 
 Lemma nodupN_NoDup l : nodupN l = true -> NoDup l.
 Proof.
@@ -32,6 +36,9 @@ Lemma map_flat_map {A B C} (h : B -> C) (f : A -> list B) l : map h (flat_map f 
 Proof. induction l; simpl; [reflexivity|]. rewrite map_app, IHl. reflexivity. Qed.
 Lemma filter_map_comm {A B} (p : B -> bool) (h : A -> B) l : filter p (map h l) = map h (filter (fun x => p (h x)) l).
 Proof. induction l; simpl; [reflexivity|]. destruct (p (h a)); simpl; rewrite IHl; reflexivity. Qed.
+
+Lemma NoDup_app_remove_l {A} (l l' : list A) : NoDup (l ++ l') -> NoDup l'.
+Proof. induction l as [|a l IH]; simpl; intros H; [exact H|]. inversion H; subst. apply IH. assumption. Qed.
 
 (* ---------------------------------------------------------------- producers *)
 Definition subst_ins (sg : vid -> vid) (n : node) : node :=
@@ -108,11 +115,14 @@ Proof. rewrite forallb_forall. auto. Qed.
 
 Lemma wfb_WF m : wfb m = true -> WF m.
 Proof.
-  unfold wfb. intros H. repeat (apply andb_prop in H; destruct H as [H ?]).
+  unfold wfb. intros H.
+  apply andb_prop in H. destruct H as [H _]. apply andb_prop in H. destruct H as [H _].
+  apply andb_prop in H. destruct H as [H Hi]. apply andb_prop in H. destruct H as [H Hf].
+  apply andb_prop in H. destruct H as [Ho _].
   constructor.
   - apply nodupN_NoDup. assumption.
-  - intros v Hin. apply memN_false. apply negb_true_iff. eapply (forallb_In _ _ v) in H2; eauto.
-  - intros v Hin. apply memN_false. apply negb_true_iff. eapply (forallb_In _ _ v) in H1; eauto.
+  - intros v Hin. apply memN_false. apply negb_true_iff. exact (forallb_In _ _ v Hf Hin).
+  - intros v Hin. apply memN_false. apply negb_true_iff. exact (forallb_In _ _ v Hi Hin).
 Qed.
 
 Definition formal_of (m : model) (v : vid) : Prop := In v (all_formals m).
@@ -154,24 +164,28 @@ Qed.
 (* ---------------------------------------------------------------- the generic rewriting step *)
 (* m' is obtained from m by: substituting sg in every node input and every graph/function output,
    keeping the nodes selected by p (others removed), and replacing the initializer table. *)
-Definition rw_graph (sg : vid -> vid) (p : node -> bool) (inits : graph -> list (vid * tensor)) (g : graph) : graph :=
-  mkGraph (g_ins g) (inits g) (map (subst_ins sg) (filter p (g_nodes g))) (map sg (g_outs g)).
-Definition rw (sg : vid -> vid) (p : node -> bool) (inits : graph -> list (vid * tensor)) (m : model) : model :=
-  map_graphs (rw_graph sg p inits) m.
+Definition rw_graph (tr : node -> node) (sg : vid -> vid) (p : node -> bool) (inits : graph -> list (vid * tensor)) (g : graph) : graph :=
+  mkGraph (g_ins g) (inits g) (map (fun n => tr (subst_ins sg n)) (filter p (g_nodes g))) (map sg (g_outs g)).
+Definition rw (tr : node -> node) (sg : vid -> vid) (p : node -> bool) (inits : graph -> list (vid * tensor)) (m : model) : model :=
+  map_graphs (rw_graph tr sg p inits) m.
+Definition tr_ok (tr : node -> node) : Prop :=
+  forall n, n_op (tr n) = n_op n /\ n_attrs (tr n) = n_attrs n /\ n_outs (tr n) = n_outs n
+            /\ exists c k k', n_ins n = c ++ repeat None k /\ n_ins (tr n) = c ++ repeat None k'.
+Lemma tr_ok_id : tr_ok (fun n => n).
+Proof. intros n. repeat split. exists (n_ins n), O, O. simpl. rewrite app_nil_r. auto. Qed.
 
-Lemma all_nodes_rw sg p inits m : all_nodes (rw sg p inits m) = map (subst_ins sg) (filter p (all_nodes m)).
+Lemma all_nodes_rw tr sg p inits m : all_nodes (rw tr sg p inits m) = map (fun n => tr (subst_ins sg n)) (filter p (all_nodes m)).
 Proof.
-  unfold all_nodes, rw. rewrite graphs_of_map_graphs, flat_map_map. simpl.
-  rewrite filter_flat_map, map_flat_map. reflexivity.
+  unfold all_nodes, rw. rewrite graphs_of_map_graphs, flat_map_map, filter_flat_map, map_flat_map. reflexivity.
 Qed.
-Lemma all_formals_rw sg p inits m : all_formals (rw sg p inits m) = all_formals m.
+Lemma all_formals_rw tr sg p inits m : all_formals (rw tr sg p inits m) = all_formals m.
 Proof. unfold all_formals, rw. rewrite graphs_of_map_graphs, flat_map_map. reflexivity. Qed.
-Lemma all_inits_rw sg p inits m : all_inits (rw sg p inits m) = flat_map inits (graphs_of m).
+Lemma all_inits_rw tr sg p inits m : all_inits (rw tr sg p inits m) = flat_map inits (graphs_of m).
 Proof. unfold all_inits, rw. rewrite graphs_of_map_graphs, flat_map_map. reflexivity. Qed.
-Lemma all_outs_rw_incl sg p inits m v : In v (all_outs (rw sg p inits m)) -> In v (all_outs m).
+Lemma all_outs_rw_incl tr sg p inits m v : tr_ok tr -> In v (all_outs (rw tr sg p inits m)) -> In v (all_outs m).
 Proof.
-  unfold all_outs. rewrite all_nodes_rw, flat_map_map. simpl. rewrite !in_flat_map.
-  intros [n [Hn Hv]]. apply filter_In in Hn. exists n. tauto.
+  intros Htr. unfold all_outs. rewrite all_nodes_rw, flat_map_map. rewrite !in_flat_map.
+  intros [n [Hn Hv]]. apply filter_In in Hn. exists n. destruct (Htr (subst_ins sg n)) as [_ [_ [Ho _]]]. rewrite Ho in Hv. tauto.
 Qed.
 Lemma NoDup_flat_map_filter {A B} (f : A -> list B) p l : NoDup (flat_map f l) -> NoDup (flat_map f (filter p l)).
 Proof.
@@ -186,15 +200,16 @@ Proof.
   - apply IH. eapply NoDup_app_remove_l. exact H.
 Qed.
 
-Lemma WF_rw sg p inits m :
-  WF m -> (forall v, In v (flat_map (fun g => map fst (inits g)) (graphs_of m)) -> ~ In v (all_outs m)) -> WF (rw sg p inits m).
+Lemma WF_rw tr sg p inits m : tr_ok tr ->
+  WF m -> (forall v, In v (flat_map (fun g => map fst (inits g)) (graphs_of m)) -> ~ In v (all_outs m)) -> WF (rw tr sg p inits m).
 Proof.
-  intros [H1 H2 H3] Hi. constructor.
-  - unfold all_outs. rewrite all_nodes_rw, flat_map_map. simpl. apply NoDup_flat_map_filter. exact H1.
-  - intros v Hv Ho. rewrite all_formals_rw in Hv. apply all_outs_rw_incl in Ho. exact (H2 v Hv Ho).
-  - intros v Hv Ho. apply all_outs_rw_incl in Ho. apply (Hi v); [|exact Ho].
-    rewrite all_inits_rw in Hv. rewrite <- flat_map_concat_map, concat_map, map_map, flat_map_concat_map in Hv.
-    rewrite flat_map_concat_map. exact Hv.
+  intros Htr [H1 H2 H3] Hi. constructor.
+  - unfold all_outs. rewrite all_nodes_rw, flat_map_map.
+    rewrite (flat_map_ext' _ n_outs); [apply NoDup_flat_map_filter; exact H1|].
+    intros n _. destruct (Htr (subst_ins sg n)) as [_ [_ [Ho _]]]. exact Ho.
+  - intros v Hv Ho. rewrite all_formals_rw in Hv. apply all_outs_rw_incl in Ho; [|exact Htr]. exact (H2 v Hv Ho).
+  - intros v Hv Ho. apply all_outs_rw_incl in Ho; [|exact Htr]. apply (Hi v); [|exact Ho].
+    rewrite all_inits_rw, map_flat_map in Hv. exact Hv.
 Qed.
 
 Section Step.
@@ -209,10 +224,11 @@ Section Step.
   Hypothesis interp_trailing_absent : forall op attrs subs ins k,
       interp op attrs subs (ins ++ [absent]) k = interp op attrs subs ins k.
 
-  Variables (sg : vid -> vid) (p : node -> bool) (inits : graph -> list (vid * tensor)) (m : model).
+  Variables (tr : node -> node) (sg : vid -> vid) (p : node -> bool) (inits : graph -> list (vid * tensor)) (m : model).
   Variable L : vid -> Prop.
   Hypothesis HWF : WF m.
-  Let m' := rw sg p inits m.
+  Hypothesis Htr : tr_ok tr.
+  Let m' := rw tr sg p inits m.
   Let s := sem_of m.
   Let s' := sem_of m'.
 
@@ -241,8 +257,18 @@ Section Step.
   Hypothesis H_undef : forall v, L v -> alookup (all_inits m) v = None -> find_prod (all_nodes m) v = None -> True.
 
   Lemma prod_rw u : find_prod (all_nodes m') u =
-                    match find_prod (all_nodes m) u with Some (n, i) => if p n then Some (subst_ins sg n, i) else None | None => None end.
-  Proof. unfold m'. rewrite all_nodes_rw. apply find_prod_map_filter; [reflexivity | apply (wf_outs m HWF)]. Qed.
+                    match find_prod (all_nodes m) u with Some (n, i) => if p n then Some (tr (subst_ins sg n), i) else None | None => None end.
+  Proof.
+    unfold m'. rewrite all_nodes_rw. apply (find_prod_map_filter _ (fun n => tr (subst_ins sg n))); [|apply (wf_outs m HWF)].
+    intros n. destruct (Htr (subst_ins sg n)) as [_ [_ [Ho _]]]. exact Ho.
+  Qed.
+  Lemma tr_rel n0 n : n_op n0 = n_op n -> n_attrs n0 = n_attrs n -> length (n_outs n0) = length (n_outs n) ->
+                      map (option_map sg) (n_ins n0) = map (option_map sg) (n_ins n) -> node_rel sg n (tr (subst_ins sg n0)).
+  Proof.
+    intros Hop Hat Hno Hins. destruct (Htr (subst_ins sg n0)) as [Ho [Ha [Hou [c [k [k' [Hc Hc']]]]]]].
+    constructor; [rewrite Ho; exact Hop | rewrite Ha; exact Hat | rewrite Hou; exact Hno |].
+    exists c, k, k'. simpl in Hc. rewrite <- Hins, Hc. auto.
+  Qed.
 
   Lemma produced_not_formal v n i : find_prod (all_nodes m) v = Some (n, i) -> ~ formal_of m v.
   Proof.
@@ -262,17 +288,17 @@ Section Step.
         assert (Hclosed : forall w, In (Some w) (n_ins n) -> L w).
         { intros w Hw. eapply H_closed; eauto. exists v. split; [eapply index_of_In; eauto | exact HL]. }
         destruct (H_node v n i HL Ei Ep) as [[Hp [Hsg Hi']] | [[nk [Epk [Hpk [Hi' [Hop [Hat [Hno Hins]]]]]]] | [[-> [Hid [Hlen [Hfn [x [Hins Hsg]]]]]] | [-> [Hins [Hlen [Hfn [t [Hc [Hi' Hnf]]]]]]]]]].
-        * eapply (VNode _ _ _ _ _ _ _ _ n i (subst_ins sg n)); simpl; eauto.
+        * eapply VNode with (n := n) (i := i) (n' := tr (subst_ins sg n)); simpl; eauto.
           -- rewrite Hsg. exact Hi'.
           -- rewrite Hsg, prod_rw, Ep, Hp. reflexivity.
-          -- constructor; simpl; try reflexivity. exists (map (option_map sg) (n_ins n)), O, O. simpl. rewrite !app_nil_r. auto.
-        * eapply (VNode _ _ _ _ _ _ _ _ n i (subst_ins sg nk)); simpl; eauto.
+          -- apply tr_rel; reflexivity.
+        * eapply VNode with (n := n) (i := i) (n' := tr (subst_ins sg nk)); simpl; eauto.
           -- rewrite prod_rw, Epk, Hpk. reflexivity.
           -- right. eapply produced_not_formal; eauto.
-          -- constructor; simpl; auto. exists (map (option_map sg) (n_ins n)), O, O. simpl. rewrite !app_nil_r. auto.
-        * eapply (VIdent _ _ _ _ _ _ _ _ n x); simpl; eauto.
+          -- apply tr_rel; assumption.
+        * eapply VIdent with (n := n) (x := x); simpl; eauto.
           apply Hclosed. rewrite Hins. left. reflexivity.
-        * eapply (VConst _ _ _ _ _ _ _ _ n t); simpl; eauto.
+        * eapply VConst with (n := n) (t := t); simpl; eauto.
     - intros g gr Eg. unfold s, s' in *. simpl in *. unfold m', rw, map_graphs. simpl.
       rewrite alookup_map_snd, Eg. simpl. eexists. split; [reflexivity|]. simpl. auto.
     - intros g gr Eg. unfold s in Eg. simpl in Eg. split; [eapply formal_sub; eauto|].
